@@ -257,8 +257,10 @@ struct DurationTotal {
 
 impl DurationTotal {
     pub fn new(time_duration: i128, unit_nanoseconds: u64) -> Self {
-        let quotient = time_duration.div_euclid(unit_nanoseconds as i128);
-        let remainder = time_duration.rem_euclid(unit_nanoseconds as i128);
+        // NOTE: truncating division, so that quotient and remainder carry the sign of the duration and
+        // the total of a negated duration is the negated total.
+        let quotient = time_duration / unit_nanoseconds as i128;
+        let remainder = time_duration % unit_nanoseconds as i128;
 
         Self {
             quotient,
@@ -267,10 +269,26 @@ impl DurationTotal {
         }
     }
 
+    /// The double nearest to `quotient + remainder / unit`, rounded once.
     pub(crate) fn to_fractional_total(&self) -> TemporalResult<FiniteF64> {
-        let fractional = FiniteF64::try_from(self.remainder)?
-            .checked_div(&FiniteF64::try_from(self.unit_nanoseconds)?)?;
-        FiniteF64::try_from(self.quotient)?.checked_add(&fractional)
+        let negative = self.quotient < 0 || self.remainder < 0;
+        let q = self.quotient.unsigned_abs();
+        let r = self.remainder.unsigned_abs();
+        let d = u128::from(self.unit_nanoseconds);
+        let magnitude = if q == 0 {
+            // Both operands are exact doubles (below 2^53): the division rounds once.
+            r as f64 / d as f64
+        } else if q >> 53 != 0 {
+            // The integer part alone fills the significand; the fraction can only break a tie.
+            ((q << 1) | u128::from(r != 0)) as f64 / 2.0
+        } else {
+            // 64 fraction bits and a sticky bit, rounded once by the integer to double conversion.
+            let scaled = r << 64;
+            let sticky = u128::from(scaled % d != 0);
+            let fixed = ((((q << 64) | (scaled / d)) << 1) | sticky) as f64;
+            fixed / 36_893_488_147_419_103_232.0 // 2^65
+        };
+        FiniteF64::try_from(if negative { -magnitude } else { magnitude })
     }
 }
 
